@@ -319,6 +319,39 @@ let () = reg "brbexact" (fun args ->
     Stdlib.String.concat " " (List.map (fun w -> let h = hex_of_n w in Stdlib.String.make (16 - Stdlib.String.length h) '0' ^ h) r)
   | _ -> "BAD")
 
+(* ---------------- final qubit coordinates with loops (QCoords.v) ---------------- *)
+(* qcoords MAXQ NCOMP ; S d,d ; Q a,a q,q ; R n ; ... ; E   (R n opens a block repeated n+1 times, E closes it)
+   -> "ff: q=c,c ... | s,s  ex: ..." : fast-forward model and, when small, the unrolled execution *)
+let decimal_of_z (v : z) : Stdlib.String.t = match v with Z0 -> "0" | Zpos p -> decimal_of_n (Npos p) | Zneg p -> "-" ^ decimal_of_n (Npos p)
+let zlist t = if t = "-" then [] else List.map (fun x -> z_of_int (int_of_string x)) (Stdlib.String.split_on_char ',' t)
+let () = reg "qcoords" (fun args ->
+  match split_on ";" args with
+  | [maxq; ncomp; unroll] :: rest ->
+    let rec parse (toks : Stdlib.String.t list list) : cmd list * Stdlib.String.t list list =
+      match toks with
+      | [] -> ([], [])
+      | ["E"] :: r -> ([], r)
+      | ["S"; d] :: r -> let (l, r') = parse r in (Shift (zlist d) :: l, r')
+      | ["Q"; a; qs] :: r ->
+        let (l, r') = parse r in
+        (QC (zlist a, List.map (fun x -> nat_of_int (int_of_string x)) (Stdlib.String.split_on_char ',' qs)) :: l, r')
+      | ["R"; n] :: r ->
+        let (body, r1) = parse r in
+        let (l, r2) = parse r1 in
+        (Rep (n_of_decimal n, body) :: l, r2)
+      | t :: _ -> failwith ("qcoords token " ^ Stdlib.String.concat " " t) in
+    let (prog, _) = parse rest in
+    let show (st : (nat -> z) * (nat -> z list option)) =
+      let (sh, m) = st in
+      let qs = List.init (int_of_string maxq) (fun q -> q) in
+      let cs = List.filter_map (fun q -> match m (nat_of_int q) with
+        | Some v -> Some (Printf.sprintf "%d=%s" q (Stdlib.String.concat "," (List.map decimal_of_z v)))
+        | None -> None) qs in
+      Stdlib.String.concat " " cs ^ " | " ^
+      Stdlib.String.concat "," (List.init (int_of_string ncomp) (fun k -> decimal_of_z (sh (nat_of_int k)))) in
+    "ff: " ^ show (ffl prog (vzero, cempty)) ^ (if unroll = "1" then " ex: " ^ show (execl prog (vzero, cempty)) else "")
+  | _ -> "BAD")
+
 let () =
   (try
      while true do
